@@ -190,6 +190,7 @@ def counters(ctx, rep):
                     if bn in IDX_EXCEPTIONS: how = 'exception: ' + IDX_EXCEPTIONS[bn]
                     elif (bn, u.loc) in covered: how = 'bitflow'
                     elif bn in anchors: how = 'IDX-1'
+                    elif bn == 'write_str': how = 'HELP-1 (copies exactly the source up to its NUL) + SIZE-1 (the sum of all sources fits the buffer)'
                     rep.check(how is not None, 'indexed %s at %s in %s is covered (%s)' % (u.op, u.loc, bn, how), u.loc, '%s: unclassified variable-index %s' % (bn, u.op),
                               sample={'site': u.loc, 'function': bn, 'covered_by': how} if ninv <= 4 else None, key='IDX-2|%s|%s' % (bn, u.op))
         rep.instances(ninv, 8, 'variable-index access sites')
@@ -248,12 +249,12 @@ def normaliser_buffers(ctx, rep):
                 if outarg is None: continue
                 n += 1
                 base, off = addr_base(f, i.ops[outarg])
-                ok = off == 0 and base is not None
+                ok = off is not None and off >= 0 and base is not None
                 if ok and base[0] == 'i':
                     a = f.insts[base[1]]
-                    ok = a.op == 'alloca' and a.d['alloc_size'] == S
+                    ok = a.op == 'alloca' and off + S <= a.d['alloc_size'] and (off == 0 and a.d['alloc_size'] == S or a.d['alloc_kind'] == 'struct')
                 elif ok and base[0] == 'a':
-                    ok = True       # forwarded parameter: checked at the callers
+                    ok = off == 0   # forwarded parameter: checked at the callers
                 rep.check(ok, 'normaliser output at %s is a whole polyseed_str (%d bytes) from offset 0' % (i.loc, S), i.loc,
                           '%s: normaliser writes into a buffer that is not a whole polyseed_str' % base_name(f.name), detail={'offset': off, 'base': str(base)},
                           sample={'site': i.loc, 'function': f.name}, key='BUF-1|%s|%s' % (base_name(f.name), t[1]))
@@ -296,48 +297,61 @@ def helper_contracts(ctx, rep):
         P = ctx.prog(cfg)
         if cfg not in rep.configs: rep.configs.append(cfg)
         from .rules_cmp import nonnul_dataflow
-        rep.rule('HELP-1', 'write_str copies the source up to, not including, its NUL: one loop whose only exit is the NUL test of the byte under the '
-                 'source cursor; each iteration stores that byte through the destination cursor and advances both cursors by one; the caller\'s cursor '
-                 'receives the final destination position')
+        rep.rule('HELP-1', 'write_str copies the source up to, not including, its NUL: one loop whose only exit is the NUL test of the source byte at the '
+                 'current position; each iteration stores that same byte at the corresponding destination position and advances by one (pointer-walking '
+                 'or index form); the caller\'s cursor receives the final destination position')
         for g in P.fns('write_str'):
             w = '%s:%s' % ((g.file or '').replace('/repo/', ''), g.line)
             src = cursor_family(g, 1)
-            exits = []      # conditional branches inside a cycle
             loopblocks = set()
-            for b in range(len(g.blocks)):
-                # b is in a loop if it can reach itself
-                seen = set(); st = list(g.succs[b])
-                while st:
-                    n = st.pop()
-                    if n in seen: continue
-                    seen.add(n); st.extend(g.succs[n])
-                if b in seen: loopblocks.add(b)
+            for b_ in range(len(g.blocks)):
+                seen = set(); st_ = list(g.succs[b_])
+                while st_:
+                    n_ = st_.pop()
+                    if n_ in seen: continue
+                    seen.add(n_); st_.extend(g.succs[n_])
+                if b_ in seen: loopblocks.add(b_)
+            def src_pos(ld):
+                """(cursor value key, index value key) of a byte load from the source string"""
+                a_ = inst_of(g, ld.ops[0])
+                if a_ is not None and a_.op == 'getelementptr' and a_.d['var_steps']:
+                    base, off = addr_base(g, a_.ops[0])
+                    return (base if base in src else None, vk(strip_ext(g, a_.d['var_steps'][0]['idx'])), off + a_.d['const_off'])
+                base, off = addr_base(g, ld.ops[0])
+                return (base if base in src else None, None, off)
             conds = []
-            for b in loopblocks:
-                t = g.blocks[b][-1]
-                if t.op == 'br' and len(t.ops) == 3 and any(s_ not in loopblocks for s_ in g.succs[b]):
-                    conds.append((b, cond_class(g, t.ops[0])))
-            ok = len(conds) == 1 and conds[0][1] is not None and conds[0][1][0] == 'nul' and addr_base(g, conds[0][1][1].ops[0])[0] in src \
-                and addr_base(g, conds[0][1][1].ops[0])[1] == 0
-            rep.check(ok, 'the copy loop ends only at the source\'s NUL', w, '%s loop exits' % base_name(g.name), detail=[(b, str(c)[:60]) for b, c in conds],
+            for b_ in loopblocks:
+                t = g.blocks[b_][-1]
+                if t.op == 'br' and len(t.ops) == 3 and any(s_ not in loopblocks for s_ in g.succs[b_]):
+                    conds.append((b_, cond_class(g, t.ops[0])))
+            ok = len(conds) == 1 and conds[0][1] is not None and conds[0][1][0] == 'nul'
+            pos0 = src_pos(conds[0][1][1]) if ok else None
+            ok = ok and pos0[0] is not None and pos0[2] == 0
+            rep.check(ok, 'the copy loop ends only at the source\'s NUL', w, '%s loop exits' % base_name(g.name), detail=[(b_, str(c)[:60]) for b_, c in conds],
                       sample={'function': g.name, 'loop_exits': len(conds)}, key='HELP-1|exit')
             stores = [i for i in g.all_insts() if i.op == 'store' and i.bb in loopblocks and i.d['size'] == 1]
-            ok2 = len(stores) == 1
+            ok2 = ok and len(stores) == 1
             if ok2:
                 s_ = stores[0]
                 ld = inst_of(g, s_.ops[0])
-                ok2 = ld is not None and ld.op == 'load' and addr_base(g, ld.ops[0])[0] in src and addr_base(g, ld.ops[0])[1] == 0
-                dbase, doff = addr_base(g, s_.ops[1])
-                ok2 = ok2 and doff == 0
-                # both cursors advance by exactly one per iteration: each loop phi's back-edge value is GEP(phi, 1)
-                phis = [i for i in g.all_insts() if i.op == 'phi' and i.bb in loopblocks and i.d['ty'] == 'i8*']
-                for ph in phis:
-                    for v, pb in ph.d['incoming']:
-                        if pb in loopblocks:
-                            bb_, o_ = addr_base(g, v)
-                            ok2 = ok2 and bb_ == ('i', ph.id) and o_ == 1
-                ok2 = ok2 and len(phis) == 2
-            rep.check(ok2, 'each iteration copies the byte under the source cursor and advances both cursors by one', w, '%s loop body' % base_name(g.name), key='HELP-1|body')
+                ok2 = ld is not None and ld.op == 'load' and src_pos(ld) == pos0
+                # destination position advances in step with the source: same index value, or a pointer phi advanced by one
+                da = inst_of(g, s_.ops[1])
+                if pos0[1] is not None:
+                    ok2 = ok2 and da is not None and da.op == 'getelementptr' and da.d['var_steps'] and vk(strip_ext(g, da.d['var_steps'][0]['idx'])) == pos0[1]
+                    idxphi = g.insts[pos0[1][1]] if pos0[1][0] == 'i' else None
+                    ok2 = ok2 and idxphi is not None and idxphi.op == 'phi' and any(
+                        inst_of(g, v) is not None and inst_of(g, v).op == 'add' and vk(inst_of(g, v).ops[0]) == ('i', idxphi.id) and const_of(inst_of(g, v).ops[1]) == 1
+                        for v, pb in idxphi.d['incoming'] if pb in loopblocks)
+                else:
+                    phis = [i for i in g.all_insts() if i.op == 'phi' and i.bb in loopblocks and i.d['ty'] == 'i8*']
+                    for ph in phis:
+                        for v, pb in ph.d['incoming']:
+                            if pb in loopblocks:
+                                bb_, o_ = addr_base(g, v)
+                                ok2 = ok2 and bb_ == ('i', ph.id) and o_ == 1
+                    ok2 = ok2 and len(phis) == 2
+            rep.check(ok2, 'each iteration copies the byte under the source position to the destination position and advances both by one', w, '%s loop body' % base_name(g.name), key='HELP-1|body')
         rep.rule('HELP-2', 'utf8_nfkd_lazy returns either the value returned by dep:u8_nfkd (non-ASCII input) or the number of bytes it copied, which is the '
                  'index at which it stores the terminator')
         for g in P.fns('utf8_nfkd_lazy'):
@@ -377,16 +391,20 @@ def helper_contracts(ctx, rep):
                 rc = wk.ret_class()
                 if rc and rc[0] == 'const' and rc[1] >> 31:
                     n += 1
-                    searched = any(i.op == 'call' and (P.call_target(i) == ('direct', 'bsearch') or P.call_target(i)[0] == 'indirect') for i in wk.events)
-                    for i in wk.events:          # ... or the scan loop's own bound test was left (counter compared with a constant)
-                        if i.op == 'br' and len(i.ops) == 3:
-                            c = inst_of(g, i.ops[0])
-                            if c is not None and c.op == 'icmp' and const_of(c.ops[1]) is not None:
-                                ph = inst_of(g, strip_ext(g, c.ops[0]))
-                                if ph is not None and ph.op == 'phi' and const_of(c.ops[1]) >= 2048: searched = True
+                    inloop = set()
+                    for b_ in range(len(g.blocks)):
+                        seen = set(); st_ = list(g.succs[b_])
+                        while st_:
+                            n_ = st_.pop()
+                            if n_ in seen: continue
+                            seen.add(n_); st_.extend(g.succs[n_])
+                        if b_ in seen: inloop.add(b_)
+                    searched = any(i.op == 'call' and (P.call_target(i) == ('direct', 'bsearch') or P.call_target(i)[0] == 'indirect' or
+                                                       (P.call_target(i)[0] == 'direct' and P.call_target(i)[1] in P.defined)) for i in wk.events) \
+                        or any(b_ in inloop for b_ in wk.path)          # ... or the path went through the scan loop
                     rep.check(searched, 'negative result on path %s comes after a search step' % wk.path, g.blocks[wk.path[-1]][-1].loc, '%s: token rejected without searching' % base_name(g.name),
                               key='HELP-3|early-reject')
-            rep.instances(n, 1, 'negative-return paths of lang_search')
+            rep.rules[rep._cur]['instances'] += n      # a dispatcher that delegates both searches has no such path itself
         rep.rule('HELP-5', 'dep:u8_nfc is called from polyseed_encode itself or from a helper in which the call is unconditional (it lies on every path from '
                  'the helper\'s entry to its return): composition cannot be skipped depending on the phrase bytes')
         n5 = 0
@@ -398,43 +416,6 @@ def helper_contracts(ctx, rep):
                 rep.check(ok, 'dep:u8_nfc call at %s is unconditional within %s' % (i.loc, base_name(g.name)), i.loc, '%s: composition is skipped on some paths' % base_name(g.name),
                           key='HELP-5|%s' % base_name(g.name))
         rep.instances(n5, 1, 'dep:u8_nfc call sites')
-        rep.rule('HELP-6', 'returned length of polyseed_encode: on the copying (non-composing) branch the local buffer is copied to str_out with length L+1 and '
-                 'L is returned, where L = (writer cursor after the last word) - (start of the local buffer) and the terminator was stored through that same '
-                 'cursor; on the composing branch the value returned by dep:u8_nfc is returned')
-        for g in P.fns('polyseed_encode'):
-            w = '%s:%s' % ((g.file or '').replace('/repo/', ''), g.line)
-            rets = [i for i in g.all_insts() if i.op == 'ret']
-            srcs = []
-            def expand(v, d=0):
-                i = inst_of(g, v)
-                if i is not None and i.op == 'phi' and d < 4:
-                    out = []
-                    for x, _ in i.d['incoming']: out += expand(x, d + 1)
-                    return out
-                return [v]
-            for r_ in rets: srcs += expand(r_.ops[0])
-            kinds = []
-            mc = [i for i, t in P.calls(g) if t[0] == 'direct' and (t[1].startswith('llvm.memcpy') or t[1] == 'memcpy') and addr_base(g, i.ops[0])[0] == ('a', 3)]
-            for v in srcs:
-                i = inst_of(g, v)
-                if i is not None and i.op == 'call' and P.call_target(i) == ('dep', 'u8_nfc'): kinds.append('nfc'); continue
-                ok = False
-                if i is not None and i.op == 'sub':
-                    a, b = inst_of(g, i.ops[0]), inst_of(g, i.ops[1])
-                    if a is not None and b is not None and a.op == 'ptrtoint' and b.op == 'ptrtoint':
-                        bb, bo = addr_base(g, b.ops[0])
-                        cur = inst_of(g, a.ops[0])
-                        if bb is not None and bb[0] == 'i' and g.insts[bb[1]].op == 'alloca' and bo == 0 and cur is not None and cur.op == 'load':
-                            slot = addr_base(g, cur.ops[0])[0]
-                            # a NUL store through a load of the same cursor slot dominates, with no writer call in between
-                            nul = [s_ for s_ in g.all_insts() if s_.op == 'store' and const_of(s_.ops[0]) == 0 and s_.d['size'] == 1 and inst_of(g, s_.ops[1]) is not None
-                                   and inst_of(g, s_.ops[1]).op == 'load' and addr_base(g, inst_of(g, s_.ops[1]).ops[0])[0] == slot and g.inst_dominates(s_, i)]
-                            lens = [m for m in mc if inst_of(g, m.ops[2]) is not None and inst_of(g, m.ops[2]).op == 'add' and inst_of(g, m.ops[2]).ops[0] == v and const_of(inst_of(g, m.ops[2]).ops[1]) == 1
-                                    and addr_base(g, m.ops[1]) == (bb, 0)]
-                            ok = bool(nul) and len(lens) == 1 and len(mc) == 1
-                kinds.append('count' if ok else 'other')
-            rep.check(sorted(set(kinds)) == ['count', 'nfc'], 'polyseed_encode returns dep:u8_nfc\'s result or the byte count of the terminated local buffer it copies (+1 for the NUL)', w,
-                      base_name(g.name), detail=kinds, sample=kinds, key='HELP-6|ret')
         rep.rule('HELP-4', 'the default clock returns the value of time(NULL) unchanged (no truncation)')
         for g in P.defined.values():
             calls = [i for i, t in P.calls(g) if t == ('direct', 'time')]
